@@ -720,7 +720,7 @@ def assign_model(ctx):
     params = [a.arg for a in f.args.args]
     if params[:6] != ['read', 'countTable', 'args', 'joinFeatures', 'featureTags', 'sampleTags']:
         return None
-    vals = {'DS': '1500', 'GN': '7', 'SM': 'cellA', 'ZZ': '0'}
+    vals = {'DS': '1500', 'GN': '7', 'SM': 'cellA', 'ZZ': '0', 'NG': '-2.5', 'EX': '2.5e-1'}       # by-value tags hold whatever float() reads: negative numbers, exponents
     windows = [(1000, 2000), (1500, 2500), (9500, 10500)]
 
     class Table(dict):
@@ -749,7 +749,7 @@ def assign_model(ctx):
     n = 0
     world = {'hits': None}
     try:
-        for binv, byv, tags, paired, nodiv, keep, mate, hits, join, mate_unmapped in itertools.product((None, 1000), (None, 'GN', 'ZZ'), (['DS', 'GN'], ['GN', 'DS'], ['DS'], ['GN', 'ZZ', 'DS']), (False, True), (False, True), (False, True),
+        for binv, byv, tags, paired, nodiv, keep, mate, hits, join, mate_unmapped in itertools.product((None, 1000), (None, 'GN', 'ZZ', 'NG', 'EX'), (['DS', 'GN'], ['GN', 'DS'], ['DS'], ['GN', 'ZZ', 'DS'], ['NG', 'DS'], ['DS', 'EX']), (False, True), (False, True), (False, True),
                                                                                               (None, 'r1only', 'r2only'), (None, 'XA', 'NH'), (True, False), (False, True)):
             if byv is not None and byv not in tags:
                 continue
